@@ -65,7 +65,7 @@ func runC18(c c18Case, r *rep.Report) (key, msg string, stats map[string]int64) 
 			so.SetTransports(types.NewSet("polling", "websocket", "webtransport"))
 			so.SetPingInterval(20 * time.Second)
 			w := rig.NewWorld(rig.Options{Server: so})
-			defer w.Shutdown()
+			defer w.Finish()
 			cl, err := w.Connect(rig.ClientCfg{Rev: 4, Transport: c.Transport})
 			rig.Wait()
 			sock := w.Socket(0)
@@ -337,7 +337,7 @@ func runReentrancy(event, action, transport string) (key, msg string, reached bo
 			s.On(types.EventName(event), func(...any) { act(s) })
 		}
 	}})
-	defer w.Shutdown()
+	defer w.FinishReal()
 	switch event {
 	case "srv:flush":
 		w.Eng.On("flush", func(a ...any) {
